@@ -2960,6 +2960,15 @@ static TSQueryError ts_query__parse_pattern(
   // Parse suffixes modifiers for this pattern
   TSQuantifier quantifier = TSQuantifierOne;
   for (;;) {
+    // A group that consists of predicates only has no step that a quantifier or a capture
+    // could apply to.
+    if (
+      starting_step_index >= self->steps.size &&
+      (stream->next == '+' || stream->next == '*' || stream->next == '?' || stream->next == '@')
+    ) {
+      return TSQueryErrorSyntax;
+    }
+
     // Parse the one-or-more operator.
     if (stream->next == '+') {
       quantifier = quantifier_join(TSQuantifierOneOrMore, quantifier);
